@@ -17,7 +17,6 @@ import (
 	"io"
 	"io/ioutil"
 	"net"
-	"sort"
 	"strings"
 	"testing"
 	"time"
@@ -289,7 +288,7 @@ func TestVerifC29(t *testing.T) {
 	if !mc.Thorough() {
 		limits = []int{0, 1, 2, 3, 4, 5, 6, 9, 10, 15, 16, 20, 29, 30, 31, 32, 39, 40}
 	}
-	probe, repeats := 3, mc.Pick(24, 256)
+	repeats := mc.Pick(32, 256)
 
 	// Kad/addressbook worlds are immutable under onFindNode (checked below), so one
 	// instance per (shape, requester kind) is built lazily and shared by all
@@ -308,7 +307,7 @@ func TestVerifC29(t *testing.T) {
 
 	mc.Run(t, mc.Config{ID: "C29", Name: "C29-findnode-enum", MaxDev: -1, Params: map[string]interface{}{
 		"limit": limits, "pos_lists": posLists, "targets": nTargets, "peer_sets": shapeNames,
-		"requests_per_execution": fmt.Sprintf("%d; %d when the replies differ (random selection inside the implementation)", probe, repeats), "requester": c29ReqNames, "allow_private_cidrs": []bool{false, true},
+		"requests_per_execution": fmt.Sprintf("1 if the first reply is empty, else %d (random selection inside the implementation)", repeats), "requester": c29ReqNames, "allow_private_cidrs": []bool{false, true},
 		"underlays": "ip4 34.x (public) 10.x 192.168.x 172.16.x (private), ip6 2600:: (public) fd12:: (private)"}},
 		func(x *mc.X) {
 			limit := limits[x.Choose(len(limits))]
@@ -360,11 +359,11 @@ func TestVerifC29(t *testing.T) {
 			// Which candidates are selected is random in the implementation whenever a
 			// choice exists; then the same request is repeated and every reply judged.
 			// (math/rand re-seeded from the clock - it cannot be controlled from outside).
-			// The request is sent `probe` times; if the replies differ, i.e. the
-			// implementation really selected at random, it is sent `repeats` times.
-			reps := probe
+			// An empty first reply means the implementation found no candidate at all: nothing
+			// was selected and one request is enough. Otherwise the same request is sent
+			// `repeats` times and every reply is judged.
+			reps := repeats
 			n := 0
-			firstSet := ""
 			for rep := 0; rep < reps; rep++ {
 				// request on the in-memory stream
 				var reqBuf bytes.Buffer
@@ -382,18 +381,8 @@ func TestVerifC29(t *testing.T) {
 				}
 				x.NoErr(resp.Unmarshal(raw[k:]), "decode reply")
 
-				if reps == probe {
-					var ovs []string
-					for _, p := range resp.Peers {
-						ovs = append(ovs, string(p.Overlay))
-					}
-					sort.Strings(ovs)
-					set := strings.Join(ovs, "")
-					if rep == 0 {
-						firstSet = set
-					} else if set != firstSet {
-						reps = repeats
-					}
+				if rep == 0 && len(resp.Peers) == 0 {
+					reps = 1
 				}
 
 				// ---- oracle, on the reply only ----
